@@ -321,7 +321,7 @@ class Model:
             self.adv()
             if self.peek() == ")":
                 self.adv()
-                return ("tuple", ())
+                return ("tuple!", ())
             r = self.expr(0)
             self.expect(")")
             if r[0] == "tuple":
